@@ -25,8 +25,8 @@ ASSUMPTIONS = [
     "removes that name or _parse, that driving route is skipped (counted), the other one still decides",
     "characters outside the 8-symbol alphabet behave like 'a' or e-acute (the tokenizer special-cases only ':', '=', backslash)",
 ]
-MIN = {"quick": {"evaluations": 100000, "nontrivial": 24000, "outcomes": 3},
-       "thorough": {"evaluations": 6000000, "nontrivial": 1800000, "outcomes": 3}}
+MIN = {"quick": {"evaluations": 100000, "nontrivial": 24000, "outcomes": 2},
+       "thorough": {"evaluations": 6000000, "nontrivial": 1800000, "outcomes": 2}}
 
 ALPHA = [":", "=", "\\", "a", "é", " ", "/", "\n"]
 OTHER = "=x:\\"      # second (fixed) text in keyword-value position for the two-at-once templates
